@@ -82,7 +82,7 @@ def source(ctx, cov):
     st = json.loads(out.strip().splitlines()[-1])
     if st["settled_points"] < 10:
         raise vlib.ToolError("vacuous membership-source run: %s" % st)
-    tv = vlib.validate_trace(ctx, "Trace_MembershipSource", {}, trace, "trace_source", invariants=["Report"])
+    tv = vlib.validate_trace(ctx, "Trace_MembershipSource", {}, trace, "trace_source", invariants=["Report", "ReportWaits"])
     if tv["rejected"] is not None:
         raise vlib.ToolError("trace validation stopped early: %s" % tv["rejected"])
     ctx.log("membership source: %d scripts of real ChitchatNodes, %d settled snapshots (longest wait %d ms): %d differ from what is running" % (
@@ -91,7 +91,21 @@ def source(ctx, cov):
         ctx.violations.append({"engine": "h-node record-source + Trace_MembershipSource", "event": e,
                                "why": ["with membership quiescent (up to three minutes were given), the membership layer's snapshot does not name exactly "
                                        "the running nodes with the addresses they have now"]})
-    cov["membership_source"] = dict(st, snapshots_that_differ=len(tv["fails"]))
+    # wait_for_nodes / wait_for_members: WaitFor.tla model checked (and the variation "any one of the nodes" told apart), the real
+    # calls judged by the trace specification; not part of C16's statement, so a difference is drift
+    consts = dict(Ids={1, 2, 3}, Calls={'"c1"', '"c2"'}, MaxPub=3, AnyOf=False)
+    mc, text = vlib.run_tlc(ctx, "WaitFor", vlib.cfg_text(constants=consts, invariants=["OkMeansAllThere", "TimeoutMeansMissing"]), "mc_waitfor", workers=4, timeout=900)
+    if not vlib.require_clean_mc(ctx, mc, text, "WaitFor"):
+        raise vlib.ToolError("WaitFor.tla violates %s: specification error" % mc["violated"])
+    r2, _ = vlib.run_tlc(ctx, "WaitFor", vlib.cfg_text(constants=dict(consts, AnyOf=True), invariants=["OkMeansAllThere"]), "mc_waitfor_anyof", workers=4, timeout=900)
+    if "OkMeansAllThere" not in r2["violated"]:
+        raise vlib.ToolError("WaitFor.tla no longer tells the variation AnyOf apart")
+    wait_drift = (tv["drift"] or {}).get("events", [])
+    ctx.log("wait_for_members: WaitFor.tla %d states; %d real calls (%d answered Ok, the others timed out): %d not as specified" % (
+        mc["distinct"], st.get("wait_calls", 0), st.get("wait_calls_answered_ok", 0), len(wait_drift)))
+    if wait_drift:
+        ctx.notes.append("drift (not a C16 verdict): wait_for_members calls not as WaitFor.tla has them: %s" % json.dumps(wait_drift[:3]))
+    cov["membership_source"] = dict(st, snapshots_that_differ=len(tv["fails"]), waitfor_model_states=mc["distinct"], wait_calls_not_as_specified=len(wait_drift))
     cov["traces_validated_against_impl"] += st["settled_points"]
 
 
